@@ -443,9 +443,9 @@ func (cs *Contracts) parseLines(lines []rawLine, trusted bool, home string) erro
 		case kw == "ghost":
 			// ghost field xmpp.Session.stanzasSeen Int
 			f := strings.Fields(rest)
-			if len(f) == 4 && f[0] == "map" {
-				// ghost map written Ref Str
-				cs.GhostMaps[f[1]] = &GhostField{Name: f[1], Struct: f[2], Sort: f[3]}
+			if len(f) >= 4 && f[0] == "map" {
+				// ghost map written Ref Str   |   ghost map openNames Ref (Array Int xml.Name)
+				cs.GhostMaps[f[1]] = &GhostField{Name: f[1], Struct: f[2], Sort: strings.Join(f[3:], " ")}
 				cur = nil
 				continue
 			}
